@@ -562,6 +562,11 @@ func runCase(r *mon.Run, i int) {
 			default:
 			}
 		}
+		if perIP && st == fasthttp.StateClosed {
+			// reported after Close: the wrapper is empty or already carries the next connection, so the
+			// call cannot be attributed to a connection; the per-value monitor above judges it
+			return
+		}
 		tc := underlying(nc)
 		if tc == nil {
 			if !perIP {
